@@ -715,7 +715,7 @@ def check_shown_vc(ctx, impl, logic, hol_ast, s, hol, vs, rec):
             return
 
 
-def oracle_a(ctx, logic, rec, vs, grid, vcs_hol):
+def oracle_a(ctx, logic, rec, vs, grid, vcs_hol, kind="vcs-unsound", replay=None, where=""):
     pre, c, post = rec["pre"], rec["com"], rec["post"]
 
     def vcs_hold_at(st):
@@ -739,10 +739,10 @@ def oracle_a(ctx, logic, rec, vs, grid, vcs_hol):
         # Postcondition violated: the soundness proof uses the VCs only at visited states, so this is
         # a counterexample to soundness iff the VCs also hold at every visited state.
         if all(vcs_hold_at(v) for v in visited):
-            viol(ctx, "vcs-unsound:" + rec["key"],
-                 "all VCs hold on the grid and on every visited state, but from %s the program ends in %s where the postcondition is false"
-                 % (st, {k: fin.get(k, 0) for k in vs}),
-                 {"kind": "vcs", "pre": pre, "com": c, "post": post, "init": st, "final": fin, "vcs": rec["vcs_str"]})
+            viol(ctx, kind + ":" + rec["key"],
+                 "%sall VCs %s hold on the grid and on every visited state, but from %s the program ends in %s where the postcondition is false"
+                 % (where, rec["vcs_str"] if where else "", st, {k: fin.get(k, 0) for k in vs}),
+                 replay or {"kind": "vcs", "pre": pre, "com": c, "post": post, "init": st, "final": fin, "vcs": rec["vcs_str"]})
             return
         ctx.count("oracle-a:vc-fails-off-grid")
     if nterm:
@@ -801,6 +801,151 @@ def compare_vcs(ctx, out, pending):
                     "VCs (HOL terms)" if m_vcs != i_vcs else "printed VCs", rec["key"], rec["vcs_str"], [sexp.dec(t) for t in x[3]]))
                 ctx.coverage["disagreements_checked"] += 1
     return ndis
+
+
+# ------------------------------------------------------------------ one Com object used more than once
+def gen_spec(rng, impl, c, vs):
+    """A (pre, post) for the program `c`: random; or the wp a FRESH object computes (possibly weakened to true /
+    strengthened by an atom); or built from the invariant of a top-level loop."""
+    post = gen_cond(rng, rng.randint(0, 2), vs, ad=1)
+    r = rng.random()
+    if r < 0.3:
+        return gen_cond(rng, rng.randint(0, 1), vs, ad=1), post
+    if c[0] == "while" and r < 0.6:
+        inv, b = c[2], c[1]
+        return inv, rng.choice([inv, ("bin", "and", inv, ("un", "not", b)), ("bin", "or", inv, gen_atom(rng, vs))])
+    try:
+        wp_real = impl.to_real_com(c).compute_wp(impl.to_real(post))
+    except Exception:  # noqa  (reported by the fresh-object streams)
+        return TRUE, post
+    wp = impl.from_real(wp_real)
+    if has_unsupported(wp):
+        return TRUE, post
+    r2 = rng.random()
+    if r2 < 0.5:
+        return wp, post
+    if r2 < 0.75:
+        return TRUE, post
+    return ("bin", "and", gen_atom(rng, vs), wp), post
+
+
+def analyse(impl, cr, pre, post, ctxt):
+    """The documented protocol on the object `cr`: set the precondition, compute_wp, read the VC lines."""
+    cr.pre = [impl.to_real(pre)]
+    cr.compute_wp(impl.to_real(post))
+    lines_real = cr.get_lines(ctxt)
+    also = cr.get_vcs(ctxt)
+    strs = [l['str'] for l in lines_real if l['ty'] == 'vc']
+    return strs, [l['prop'] for l in lines_real if l['ty'] == 'vc'], also
+
+
+def history_case(ctx, impl, logic, c, specs, ops, label="history"):
+    """One Com object, a sequence of operations.  ops: ("print", k) | ("vcs", k) | ("lines", k) with k the index of
+    the variable context (0: the program's variables, 1: one more variable), ("analyse", i) with i a spec index.
+    After every analysis the VCs are judged against the spec that was asked for, and against a fresh object."""
+    vs = sorted(vars_of(c, set()).union(*[vars_of(p, set()) | vars_of(q, set()) for p, q in specs]))
+    ctxts = [{v: "int" for v in vs}, dict({v: "int" for v in vs}, zz9="int")]
+    key = sexp.dumps(["history", s_com(c), [[s_expr(p), s_expr(q)] for p, q in specs], [[o[0], o[1]] for o in ops]])
+    replay = {"kind": "history", "com": c, "specs": [[p, q] for p, q in specs], "ops": [list(o) for o in ops]}
+    try:
+        with time_limit(60):
+            cr = impl.to_real_com(c)
+    except Timeout:
+        raise
+    except Exception as e:  # noqa
+        ctx.count("history:build-raise:" + classify_exc(e))
+        return
+    ctx.case(("history", key), nontrivial=len([o for o in ops if o[0] == "analyse"]) >= 2 or ops[0][0] != "analyse")
+    nan = 0
+    for step, (op, k) in enumerate(ops):
+        try:
+            with time_limit(60):
+                if op == "print":
+                    cr.print_com(ctxts[k])
+                    continue
+                if op == "vcs":
+                    cr.get_vcs(ctxts[k])
+                    continue
+                if op == "lines":
+                    cr.get_lines(ctxts[k])
+                    continue
+                pre, post = specs[k]
+                kc = 0 if nan % 2 == 0 else 1      # alternate the variable context between analyses
+                strs, hols, also = analyse(impl, cr, pre, post, ctxts[kc])
+                fr = impl.to_real_com(c)
+                f_strs, f_hols, _ = analyse(impl, fr, pre, post, ctxts[kc])
+        except Timeout:
+            raise
+        except Exception as e:  # noqa
+            ctx.count("history:impl-raise:" + classify_exc(e))
+            viol(ctx, "history-raise:%s:%s" % (classify_exc(e), key), "operation %d (%s) of a history on one Com object raised %s: %s" % (step, op, classify_exc(e), str(e)[:100]), replay)
+            return
+        nan += 1
+        ctx.count("history:analysis-%d" % min(nan, 3))
+        from kernel.term import Term
+        if also != strs or not all(isinstance(h, Term) for h in hols):
+            viol(ctx, "history-lines-inconsistent:" + key, "after operation %d get_vcs %s and the 'vc' lines %s disagree" % (step, also, strs), replay)
+            return
+        # (i) the VCs returned for THIS spec, judged by execution
+        if len(vs) <= 4:
+            grid = [dict(zip(vs, vals)) for vals in itertools.product(GRID if len(vs) <= 3 else (-2, 0, 1), repeat=len(vs))]
+            rec = {"key": "%s@%d" % (key, step), "pre": pre, "com": c, "post": post, "vcs_str": strs}
+            oracle_a(ctx, logic, rec, vs, grid, hols, kind="history-vcs-unsound", replay=dict(replay, step=step),
+                     where="analysis no. %d on one Com object (after: %s) for {%s} .. {%s}: " % (
+                         nan, " ".join("%s%d" % (o[0], o[1]) for o in ops[:step]) or "nothing", impl.to_real(pre), impl.to_real(post)))
+            # (ii) nothing a fresh object would ask for may be missing: every VC of the fresh object is among the reused
+            # object's VCs, or at least holds wherever all of those hold (extra valid VCs on re-analysis are tolerated)
+            have = set(strs)
+            missing = [(fs, fh) for fs, fh in zip(f_strs, f_hols) if fs not in have]
+            if not missing:
+                continue
+            ctx.count("history:fresh-vc-not-literally-returned", len(missing))
+            if not all(hol_eval(h, st, logic) is True for st in grid for h in hols):
+                continue                      # the returned VCs are not valid anyway: nothing is claimed for this spec
+            for fs, fh in missing:
+                for st in grid:
+                    if hol_eval(fh, st, logic) is True:
+                        continue
+                    # a state where the fresh object's VC fails: the returned VCs are valid on the grid; they may legitimately
+                    # rule this state out further along the run (a VC relating two intermediate assertions): look there too
+                    visited = []
+                    try:
+                        run_ref(c, st, [3000], visited)
+                    except (OutOfFuel, Stuck):
+                        pass
+                    if all(hol_eval(h, v, logic) is True for v in visited for h in hols):
+                        viol(ctx, "history-vc-missing:%s@%d" % (key, step),
+                             "analysis no. %d on one Com object (after: %s) for {%s} .. {%s} returns the VCs %s, all true on the grid and along "
+                             "the run from %s; a fresh object also returns %r, which is false at that state" % (
+                                 nan, " ".join("%s%d" % (o[0], o[1]) for o in ops[:step]) or "nothing", impl.to_real(pre), impl.to_real(post), strs, st, fs),
+                             dict(replay, step=step, state=st))
+                        return
+
+
+def history_stage(ctx, impl, logic):
+    rng = ctx.rng("history")
+    V, I = (lambda x: ("var", x)), (lambda k: ("int", k))
+    B = lambda o, a, b: ("bin", o, a, b)
+    loop = ("while", B("lt", I(0), V("a")), B("le", I(0), V("a")), ("assign", "a", B("sub", V("a"), I(2))))
+    inc = ("assign", "a", B("add", V("a"), I(1)))
+    fixed = [(loop, [(B("le", I(0), V("a")), B("eq", V("a"), I(0)))], [("print", 0), ("analyse", 0)]),
+             (loop, [(B("le", I(0), V("a")), B("eq", V("a"), I(0)))], [("analyse", 0), ("analyse", 0)]),
+             (inc, [(B("le", I(0), V("a")), B("le", I(1), V("a"))), (TRUE, B("le", I(2), V("a")))], [("analyse", 0), ("analyse", 1)]),
+             (inc, [(B("le", I(0), V("a")), B("le", I(1), V("a"))), (TRUE, B("le", I(2), V("a")))], [("vcs", 0), ("analyse", 1), ("print", 1), ("analyse", 0)])]
+    for c, specs, ops in fixed:
+        history_case(ctx, impl, logic, c, specs, ops)
+    for _ in range(ctx.scale(150, 2500)):
+        vs = VARS[:rng.choice([1, 2, 2, 3])]
+        c = gen_com(rng, rng.randint(0, 3), vs, loops=rng.random() < 0.5, inv=None)
+        specs = [gen_spec(rng, impl, c, vs) for _ in range(rng.choice([1, 2, 2, 3]))]
+        ops = []
+        if rng.random() < 0.45:
+            ops.append((rng.choice(["print", "vcs", "lines"]), rng.choice([0, 0, 1])))
+        for i in range(rng.choice([1, 2, 2, 3])):
+            ops.append(("analyse", rng.randrange(len(specs))))
+            if rng.random() < 0.35:
+                ops.append((rng.choice(["print", "vcs", "lines"]), rng.choice([0, 1])))
+        history_case(ctx, impl, logic, c, specs, ops)
 
 
 def vcs_stage(ctx, impl, logic):
@@ -2190,7 +2335,9 @@ def run(ctx):
         "reference interpreter computes from the program text. imp.vcg stream: Valid pre c post through parse_com/parse_cond + vcg_solve "
         "(Z3) + checker over the same name pools, judged by executing the text on states 0..2. imp.vcg_norm stream: triples built as HOL terms "
         "with imp.Skip/Assign/Seq/Cond/While over 1-3 nat cells (random; loop-free with a precondition pinning the state; loops with pre = "
-        "invariant), depth <= 3. Constructor stream: expr.neg/conj/implies/plus/... on generated arguments. Loop guards in the loop family are "
+        "invariant), depth <= 3. Constructor stream: expr.neg/conj/implies/plus/... on generated arguments. History stream: one Com object per case, 1-3 "
+        "specifications (random, the wp of a fresh object possibly weakened to true, invariant-based), 1-3 analyses interleaved with "
+        "print_com / get_vcs / get_lines under two variable contexts. Loop guards in the loop family are "
         "conjunctions / disjunctions in 45% of the cases. Distinct by the printed input.")
     try:
         if ctx.write_if_changed("Holpy/C20/Gen.lean", translate_hoare(ctx)):
@@ -2217,7 +2364,7 @@ def run(ctx):
                         ("com-pp", lambda: com_pp_stage(ctx, impl)), ("vcs", lambda: vcs_stage(ctx, impl, logic)), ("sem", lambda: sem_stage(ctx)),
                         ("vcgnat", lambda: vcgnat_stage(ctx)),
                         ("vcghol", lambda: vcghol_stage(ctx)), ("helpers", lambda: helpers_stage(ctx, impl)),
-                        ("lexer", lambda: lexer_stage(ctx, impl))):
+                        ("history", lambda: history_stage(ctx, impl, logic)), ("lexer", lambda: lexer_stage(ctx, impl))):
         stage()
         ctx.log("stage %s done (%d cases so far)" % (name, ctx.coverage["evaluations"]))
 
@@ -2253,6 +2400,8 @@ def replay_one(ctx, impl, logic, r):
         sem_replay(ctx, r)
     elif kind == "compp":
         check_com_roundtrip(ctx, impl, tup(r["com"]))
+    elif kind == "history":
+        history_case(ctx, impl, logic, tup(r["com"]), [(tup(p), tup(q)) for p, q in r["specs"]], [(o[0], o[1]) for o in r["ops"]])
     elif kind == "vcghol":
         vcghol_case(ctx, HolBuilder(), tup(r["pre"]), tup(r["com"]), tup(r["post"]), "checked", [], [])
     elif kind == "helper":
@@ -2327,7 +2476,10 @@ MANIFEST = {
             "true on -3..3 and on every visited state ==> executions from every grid state satisfying the precondition end in the postcondition "
             "(get_vcs; likewise 0..3 for imp.vcg_norm); (b) each shown VC string re-parsed by the real parser has the value of its HOL term; "
             "generated conditions printed, re-parsed and converted by convert_hol keep their value; expr.neg/conj/implies/... return conditions "
-            "with the value of the logical combination; (c) eval_Sem's theorem (names of any length, name -> cell mapping observed and required "
+            "with the value of the logical combination; (a') the same on ONE Com object used more than once (histories: print_com / get_lines / get_vcs before the first analysis, two or "
+            "three analyses with the same or different specifications, different `vars` contexts, printing in between): the VCs returned for each "
+            "analysis are judged against the specification asked for, and every VC a fresh object returns must be returned literally or be "
+            "implied along the run (additional valid VCs on re-analysis are tolerated, missing ones are not); (c) eval_Sem's theorem (names of any length, name -> cell mapping observed and required "
             "injective) and vcg_solve-proved triples against execution of the program text.",
     "note": "Trusted: Lean kernel, propext / Classical.choice / Quot.sound; the harness (generators, reference evaluator/interpreter, reader of HOL "
             "terms incl. function updates, hoare.json translator, builder of HOL triples) -- exceptions inside harness code are machinery errors "
@@ -2335,7 +2487,10 @@ MANIFEST = {
             "construction (the lexer model is tied by differential lexing; the contextual restriction of terminals per parser state is not "
             "modelled, it only matters for keywords used as identifiers, which nameOK excludes); the holpy kernel and Z3 for the theorems "
             "eval_Sem / vcg_solve return. Not modelled: arrays / fields / forall, functions of arity > 2, >=, >, <-->, false in the printed "
-            "language (no concrete syntax in parser2; never produced by compute_wp). Known finding: print_com cannot express a sequence whose "
+            "language (no concrete syntax in parser2; never produced by compute_wp). The mutable analysis state of imperative/ is Com.pre / Com.post (and what get_lines derives from "
+            "them): exercised by the history stream on re-used objects; the Lean model describes the analysis of a fresh object only (on the "
+            "pinned tree a re-analysis appends further conditions to the chains: judged semantically, not modelled). "
+            "Known finding: print_com cannot express a sequence whose "
             "first part ends in a conditional. Parts of imperative/ and its callers touched by NO theorem and NO stream: the Lark grammar "
             "of imperative/parser.py itself (parser1; its results are used by the eval_Sem / vcg_solve streams, whose generator only emits the "
             "right-nested trees that grammar returns, but the grammar is not modelled); parser.process_file / parser2.process_file and "
